@@ -21,7 +21,6 @@ import (
 	"github.com/anthdm/hollywood/actor"
 )
 
-
 func init() {
 	register(&prop{
 		id:    "C07",
